@@ -195,6 +195,9 @@ type yaoOpts struct {
 	// randFailAfter > 0: that source fails after so many bytes.
 	randSeed      uint64
 	randFailAfter int
+	// srcName: the source name handed to Compiler.Stream (a path makes
+	// native("x.circ") resolve next to it); "" = "{data}"
+	srcName string
 }
 
 func (o yaoOpts) entropy(r *vrt.Rng) io.Reader {
@@ -305,7 +308,11 @@ func runStream(r *vrt.Rng, src string, params *utils.Params, gIn, eIn []string, 
 		if err != nil {
 			return err
 		}
-		out.gIO, out.gRes, err = compiler.New(params).Stream(d.connA, out.rec, "{data}", strings.NewReader(src), gIn, [][]int{sizes, peer})
+		name := o.srcName
+		if name == "" {
+			name = "{data}"
+		}
+		out.gIO, out.gRes, err = compiler.New(params).Stream(d.connA, out.rec, name, strings.NewReader(src), gIn, [][]int{sizes, peer})
 		return err
 	}, func() (err error) {
 		sizes, err := circuit.InputSizes(eIn)
